@@ -106,7 +106,7 @@ func caseGen() *rapid.Generator[Case] {
 	short := gen.StrItem(append([]string{"\n", "a\nb", "l1\nl2\nl3"}, gen.TokASCII...), 3)
 	long := gen.BoundaryString([]string{"\"", ",", "<", "|", "a\nb"})
 	item := rapid.Custom(func(t *rapid.T) gen.Item {
-		if rapid.IntRange(0, 149).Draw(t, "long") == 0 {
+		if gen.Rarely(t, "long", 150) {
 			return gen.S(long.Draw(t, "longv")) // buffered writers have sizes: a piece as large as the buffer
 		}
 		return short.Draw(t, "short")
@@ -126,7 +126,7 @@ func caseGen() *rapid.Generator[Case] {
 		if h.Thorough() {
 			bigOneIn = 60
 		}
-		if rapid.IntRange(0, bigOneIn-1).Draw(t, "big") == 0 {
+		if gen.Rarely(t, "big", bigOneIn) {
 			c.Repeat = rapid.SampledFrom([]int{60, 250}).Draw(t, "repeat") // tens of kilobytes of output
 			for _, op := range c.Script.Ops {
 				for _, it := range op.Items {
